@@ -49,6 +49,8 @@ func (e *Exec) cryptoDecls() {
 	e.sc.used["axiom: XOR with a keystream byte is an involution on bytes (bxor(bxor(a,k),k) = a)"] = true
 }
 
+var withAD func(e *Exec, st *State, sem string, ad Val) string
+
 func registerCryptoModels() {
 	intT := types.Typ[types.Int]
 	errT := types.Universe.Lookup("error").Type()
@@ -56,6 +58,15 @@ func registerCryptoModels() {
 	semOf := func(e *Exec, recv Val) string {
 		e.cryptoDecls()
 		return app("uf_aead_sem_1", "(i_val "+recv.T+")")
+	}
+	// additional data: sealing/opening with non-empty additional data is a different function of the
+	// key than sealing without (the contracts speak about the no-additional-data function only)
+	withAD = func(e *Exec, st *State, sem string, ad Val) string {
+		e.sc.declFun("uf_aead_ad_3", []string{"Int", "(Array Int Int)", "Int"}, "Int")
+		e.sc.axiom("aead_ad", "(forall ((s Int) (a (Array Int Int)) (n Int)) (! (and (= (uf_aead_overhead_1 (uf_aead_ad_3 s a n)) (uf_aead_overhead_1 s)) (= (uf_aead_noncesize_1 (uf_aead_ad_3 s a n)) (uf_aead_noncesize_1 s))) :pattern ((uf_aead_ad_3 s a n))))")
+		n := e.sc.freshName("aead.sem")
+		e.sc.define(n, "Int", ite("(= (s_len "+ad.T+") 0)", sem, app("uf_aead_ad_3", sem, e.seqOfSlice(st, ad.T), "(s_len "+ad.T+")")))
+		return n
 	}
 	models["(crypto/cipher.AEAD).Overhead"] = func(e *Exec, fr *Frame, st *State, args []Val, cc *ssa.CallCommon, pos token.Pos) Val {
 		return Val{T: app("uf_aead_overhead_1", semOf(e, args[0])), Typ: intT}
@@ -106,7 +117,7 @@ func registerCryptoModels() {
 			dst.T, src.T, dst.T, dst.T, src.T, dst.T, src.T, dst.T, dst.T, n, src.T, src.T, src.T, dst.T, dst.T, dst.T, n, dst.T)
 	}
 	models["(crypto/cipher.AEAD).Seal"] = func(e *Exec, fr *Frame, st *State, args []Val, cc *ssa.CallCommon, pos token.Pos) Val {
-		sem := semOf(e, args[0])
+		sem := withAD(e, st, semOf(e, args[0]), args[4])
 		dst, nonce, pt := args[1], args[2], args[3]
 		e.safety(fr, st, fmt.Sprintf("(= (s_len %s) (uf_aead_noncesize_1 %s))", nonce.T, sem), "aead-nonce", "AEAD.Seal panics unless len(nonce) == NonceSize()", pos)
 		n := e.sc.freshName("seal.n")
@@ -119,7 +130,7 @@ func registerCryptoModels() {
 		return Val{T: res, Typ: cc.Signature().Results().At(0).Type()}
 	}
 	models["(crypto/cipher.AEAD).Open"] = func(e *Exec, fr *Frame, st *State, args []Val, cc *ssa.CallCommon, pos token.Pos) Val {
-		sem := semOf(e, args[0])
+		sem := withAD(e, st, semOf(e, args[0]), args[4])
 		dst, nonce, ct := args[1], args[2], args[3]
 		e.safety(fr, st, fmt.Sprintf("(= (s_len %s) (uf_aead_noncesize_1 %s))", nonce.T, sem), "aead-nonce", "AEAD.Open panics unless len(nonce) == NonceSize()", pos)
 		ok := e.sc.freshName("open.ok")
